@@ -100,7 +100,8 @@ func NewWorld(x *vstat.Ctx, opt Options) (*World, error) {
 	w.Conns = fakes.NewConns()
 	w.St = &Stores{}
 	var err error
-	if w.St.Cfg, err = cfgstore.NewAtomixStore(w.atomix); err != nil {
+	w.St.cut = &atomixCut{}
+	if w.St.Cfg, err = cfgstore.NewAtomixStore(&cutClient{inner: w.atomix, cut: w.St.cut}); err != nil {
 		return nil, err
 	}
 	if w.St.Prop, err = propstore.NewAtomixStore(w.atomix); err != nil {
